@@ -61,6 +61,9 @@ type PContext struct {
 	originIfaceValue *hack.Iface
 	// proxyFunc 代理函数, 需要内存持续持有
 	proxyFunc reflect.Value
+	// keepAlive 桩代码中直接写入了代理函数(闭包)的地址, GC 无法感知此引用,
+	// 因此接口变量持有 mock 期间(接口变量的 data 指向 IContext), 所有方法的代理函数都需要被持续持有
+	keepAlive []interface{}
 	// canceled 是否已经被取消
 	canceled bool
 }
@@ -115,6 +118,7 @@ func GenCallableMethod(ctx *IContext, apply interface{}, proxy PFunc) uintptr {
 		applyValue := reflect.ValueOf(apply)
 		mockFuncPtr := (*hack.Value)(unsafe.Pointer(&applyValue)).Ptr
 		methodCaller, err = MakeMethodCaller(mockFuncPtr)
+		ctx.p.keepAlive = append(ctx.p.keepAlive, apply)
 	} else {
 		// 生成桩代码,rdx 寄存器还原, 生成的调用将跳转到 proxy 函数
 		methodTyp := reflect.TypeOf(apply)
@@ -126,6 +130,7 @@ func GenCallableMethod(ctx *IContext, apply interface{}, proxy PFunc) uintptr {
 		mockFuncPtr := (*hack.Value)(unsafe.Pointer(&mockFunc)).Ptr
 		methodCaller, err = MakeMethodCallerWithCtx(mockFuncPtr, callStub)
 		ctx.p.proxyFunc = mockFunc
+		ctx.p.keepAlive = append(ctx.p.keepAlive, mockFunc)
 	}
 
 	if err != nil {
